@@ -174,7 +174,7 @@ type Step struct {
 
 // Cfg is the configuration of a run.
 type Cfg struct {
-	Prop     string `json:"prop"`
+	Prop string `json:"prop"`
 	// ReportAs: the run uses the profile of Prop but belongs to the check of another property, whose oracles
 	// (the sorted-map model) are the ones reported: see the "C01@C03" spec
 	ReportAs string `json:"report_as,omitempty"`
